@@ -155,6 +155,39 @@ def table_row(n: int, ws: str, a: str) -> bool:
     return True
 
 
+def table_row_escaped(n: int, a1: str, a2: str) -> bool:
+    """
+    pre: 0 <= n <= 8
+    pre: len(a1) <= 1 and len(a2) <= param("maxlen", 2)
+    pre: all(c not in (chr(10), chr(13), "|", chr(92)) for c in a1 + a2)
+    post: _
+    """
+    # a cell with an ESCAPED pipe: '\\|' is cell content, not a delimiter, also for the GFM separator test (which looks at the cells)
+    b = param("b", "x")
+    indent = " " * n
+    line = indent + "| " + a1 + chr(92) + "|" + a2 + " |" + b + "|" + chr(10)
+    got, tok = _match("TableRow", line)
+    cell = a1 + "|" + a2
+
+    def sep(c0):
+        c = trim(c0)
+        if c == "":
+            return False
+        core = c[1:] if c.startswith(":") else c
+        core = core[:-1] if core.endswith(":") and len(core) > 0 else core
+        return len(core) >= 1 and all(ch == "-" for ch in core)
+
+    want = 2 <= n <= 5 and not sep(cell) and not sep(b)
+    if want:
+        sym.reach("recognised")
+    if got != want:
+        return False
+    if got:
+        cells = [it["text"] for it in tok.matched_items]
+        return cells == [trim(cell), trim(b)] and tok.location == {"line": 1, "column": n + 1}
+    return True
+
+
 def tag_line(ind: str, g1: str, t1: str, g2: str, t2: str, tail: str) -> bool:
     """
     pre: len(ind) <= 1 and all(c.isspace() and c != chr(10) for c in ind)
